@@ -26,7 +26,7 @@ RULE = ("texts: (a) every ordered pair of textual binary operators of the engine
         "<= 3 binary operators x every placement of <= 1 prefix operator (exhaustive), every pair x every placement "
         "of <= 2 prefix operators (exhaustive), 60000 sampled triples with <= 2 prefix operators per engine, and 200 "
         "random tables x 2000 texts. "
-        "Engines: default, legacy, fixed and random insert_operator sequences (1-6 calls; new symbols from a pool of "
+        "Engines: default, legacy, allow_delegates=True variants of both, keyword_operator=None and custom keyword operators (`:=`, `~>`), fixed and random insert_operator sequences over all of these (1-6 calls; new symbols from a pool of "
         "punctuation and words or an EXISTING symbol in its other role - binary symbol as new prefix operator, prefix "
         "symbol as new binary one; anchors on either role of two-role symbols and on arities the symbol lacks; "
         "prefix/suffix/left/right; with and without create_group; aliases); every call is compared with the "
@@ -39,7 +39,9 @@ TRUSTED = ["Model/Pratt.v (precedence climbing with the yacc rank rule) stands i
            "the real lexer supplies the token list (the lexer is not part of this property's model)",
            "harness/props/c02.py: tree canonicalisation (class, operator/function name, argument trees; Wrap kept), "
            "the pinned copies SPEC_DEFAULT/SPEC_LEGACY of the documented tables, the brute-force wf-tree search"]
-ASSUMPTIONS = [               "no symbol is both a suffix and a binary operator (tables with one are reported as uncovered)",
+ASSUMPTIONS = ["the delegate call `value(args)` (allow_delegates=True) has a rank of its own below every operator "
+               "(ply: `(` carries no precedence, every operator rule does); Model/Pratt.call_rank, tested by C/O",
+                              "no symbol is both a suffix and a binary operator (tables with one are reported as uncovered)",
                "operator tables are edited only through insert_operator; NAME_VALUE_PAIR is never inserted through it"]
 EXPLANATION = ("proof on the model that parse returns the unique tree (all constructs) satisfying the table's local "
                "reading, that insert_operator keeps groups contiguous, pinned default/legacy tables; differential check "
